@@ -76,6 +76,39 @@ func replayRecord(rec *ReplayRecord) (bool, string) {
 		os.WriteFile(p, []byte(strings.Replace(string(src), sp.Old, sp.New, -1)), 0o644)
 		repl[target] = p
 	}
+	// mirror the symbolic redirect table natively (see replay_redirect.go);
+	// functions already covered by a hand-written source patch are skipped
+	auto := map[string]string{}
+	for k, v := range rec.Redirects {
+		skip := false
+		for _, sp := range rec.Patches {
+			if strings.Contains(sp.New, v+"(") {
+				skip = true
+			}
+		}
+		if !skip {
+			auto[k] = v
+		}
+	}
+	have := map[string][]byte{}
+	for target, p := range repl {
+		if strings.HasPrefix(filepath.Base(p), "patched") {
+			if b, err := os.ReadFile(p); err == nil {
+				have[target] = b
+			}
+		}
+	}
+	rfiles, rimports, rinits, _, rerr := redirectPatches(rec.Pkg, auto, have)
+	if rerr != nil {
+		return false, "replay redirect: " + rerr.Error()
+	}
+	k2 := 0
+	for target, content := range rfiles {
+		p := filepath.Join(tmp, fmt.Sprintf("redir%d.go", k2))
+		k2++
+		os.WriteFile(p, content, 0o644)
+		repl[target] = p
+	}
 	call := rec.Harness + "()"
 	body := ""
 	if rec.ReplayFn != "" {
@@ -83,12 +116,25 @@ func replayRecord(rec *ReplayRecord) (bool, string) {
 	} else {
 		body = "\t" + call + "\n"
 	}
+	extraImports, initBody := "", ""
+	for _, im := range rimports {
+		extraImports += "\t" + im + "\n"
+	}
+	if len(rinits) > 0 {
+		initBody = "func init() {\n"
+		for _, st := range rinits {
+			initBody += "\t" + st + "\n"
+		}
+		initBody += "}\n"
+	}
 	test := fmt.Sprintf(`package %s
 
 import (
 	"fmt"
 	"testing"
-)
+`+extraImports+`)
+
+`+initBody+`
 
 func TestVReplay(t *testing.T) {
 	defer func() {
